@@ -8,7 +8,7 @@ and compare with the expectation:
   {"check": "C01", "expect": "silent"}                              behaviour-preserving edit: must exit 0
   {"check": "C10", "expect": "new-site-only"}                       behaviour-preserving edit with new code that needs a fresh argument:
                                                                     exit 1, and every report is of the "unverified site" kind
-Usage: selftest/run.py [name-substring ...]
+Usage: selftest/run.py [name-substring ...]      (SELFTEST_ONLY_CHECK=C08,C10 restricts the run to those checks)
 """
 import json, os, subprocess, sys
 HERE = os.path.dirname(os.path.abspath(__file__))
@@ -41,6 +41,8 @@ def main():
             print("FAIL %s: patch does not apply: %s" % (name, r.stdout[:300])); bad += 1; continue
         try:
             for exp in (exps if isinstance(exps, list) else [exps]):
+                if os.environ.get("SELFTEST_ONLY_CHECK") and exp["check"] not in os.environ["SELFTEST_ONLY_CHECK"].split(","):
+                    continue
                 r = sh("./check %s --tier %s" % (exp["check"], exp.get("tier", "quick")), cwd=VERIF)
                 out = r.stdout
                 if exp["expect"] == "violation":
@@ -70,6 +72,8 @@ def main():
         meta = json.load(open(os.path.join(d, "meta.json")))
         det = meta.get("detect")
         if not det:
+            continue
+        if os.environ.get("SELFTEST_ONLY_CHECK") and det["check"] not in os.environ["SELFTEST_ONLY_CHECK"].split(","):
             continue
         r = sh("git -C %s apply %s" % (REPO, os.path.join(d, "patch.diff")))
         if r.returncode != 0:
